@@ -21,6 +21,11 @@ CORPUS_SRC = [
     'int f(int x,int y){ x = y; y = x; }',
     'int f(int x){ }',
     'int f(int x,int y){ do { x = x + y; } while (x < 10); }',
+    # closure that needs a late round: one heavy edge reached through a 3-step chain of copies (if-chain body)
+    'int f(int a,int b,int c,int d,int t){ while (t) { if (t) { c = b * b; } else if (t) { d = c; c = a; b = a; } else if (t) { d = a; } else { d = b; } } }',
+    # shift register: the k-th stage shows only in the k-th power of the body relation
+    'int f(int a,int b,int c,int d,int e,int t){ while (t) { a = b; b = c; c = d; d = e; } }',
+    'int f(int a,int b,int c,int d,int t){ while (t) { d = a; a = b; b = c; c = d * d; } }',
 ]
 
 
